@@ -26,30 +26,45 @@ def validate_protocol(rep, wd, tdir):
     total = max(total, len(shapes))     # workers report their parse count every 1000 parses
     if not shapes:
         raise Inconclusive("no lexer/parser protocol events were recorded (hooks missing?)")
-    lines = [json.dumps(shapes[k]) for k in sorted(shapes)]
-    tp = os.path.join(wd, "trace_lexproc.ndjson")
+    keys = sorted(shapes)
+    CH = 20000        # shapes per TLC run; runs are independent, six at a time
+    chunks = [keys[a:a + CH] for a in range(0, len(keys), CH)]
+    def one(chunk):
+        cwd = spec_scratch()
+        recs = [shapes[k] for k in chunk]
+        rejected = []
+        while recs:
+            with open(os.path.join(cwd, "trace_lexproc.ndjson"), "w") as f:
+                for d in recs:
+                    f.write(json.dumps({"p": d["p"], "closed": d["closed"]}) + "\n")
+            r = run_tlc(cwd, "Trace_LexProc.tla", "Trace_LexProc.cfg", workers=1, heap="2g", timeout=1800, keep_vecs=False)
+            if r.error:
+                return ("error", r.error, None)
+            if r.violated and r.violated != "postcondition":
+                return ("error", "%s violated while validating\n%s" % (r.violated, r.out[-1500:]), None)
+            m = _REJ_AT.search(r.out)
+            if m is None:
+                return ("ok", rejected, r)
+            k = int(m.group(1)) - 1
+            rejected.append(recs[k])
+            del recs[k]
+            if len(rejected) >= 20:
+                return ("ok", rejected, r)
+        return ("ok", rejected, None)
+    import concurrent.futures
     rejected = 0
-    while lines:
-        open(tp, "w").write("\n".join(lines) + "\n")
-        r = run_tlc(wd, "Trace_LexProc.tla", "Trace_LexProc.cfg", workers=1, heap="2g", timeout=1800, keep_vecs=False)
-        if r.error:
-            raise Inconclusive("Trace_LexProc: %s" % r.error)
-        if r.violated and r.violated != "postcondition":
-            raise Inconclusive("Trace_LexProc: %s violated while validating\n%s" % (r.violated, r.out[-1500:]))
-        m = _REJ_AT.search(r.out)
-        if m is None:
-            rep.add_tlc(r, "Trace_LexProc")
-            break
-        k = int(m.group(1)) - 1
-        d = json.loads(lines[k])
-        evs = " ".join(e["ev"] + (":%s" % e["typ"] if "typ" in e else "") for e in d["p"])
-        rep.violation({"kind": "protocol", "cfg": d["cfg"], "closed": d["closed"], "last": d["p"][-1]["ev"] if d["p"] else ""},
-                      {"vector": {"src": d["src"], "kind": "src"}, "detail": "parse of %r is not a behaviour of the lexer/parser protocol: "
-                       "parser events [%s], lexer closed=%s" % (d["src"], evs, d["closed"])})
-        rejected += 1
-        del lines[k]
-        if rejected >= 20:
-            break
+    with concurrent.futures.ThreadPoolExecutor(max_workers=6) as ex:
+        for status, payload, r in ex.map(one, chunks):
+            if status == "error":
+                raise Inconclusive("Trace_LexProc: %s" % payload)
+            if r is not None:
+                rep.add_tlc(r, "Trace_LexProc")
+            for d in payload:
+                evs = " ".join(e["ev"] + (":%s" % e["typ"] if "typ" in e else "") for e in d["p"])
+                rep.violation({"kind": "protocol", "cfg": d["cfg"], "closed": d["closed"], "last": d["p"][-1]["ev"] if d["p"] else ""},
+                              {"vector": {"src": d["src"], "kind": "src"}, "detail": "parse of %r is not a behaviour of the lexer/parser protocol: "
+                               "parser events [%s], lexer closed=%s" % (d["src"], evs, d["closed"])})
+                rejected += 1
     rep.traces += total
     rep.notes.append("Trace_LexProc: %d recorded parses (%d distinct event shapes) validated against JetLexProc, %d rejected"
                      % (total, len(shapes), rejected))
